@@ -34,6 +34,11 @@ const DELAY: Duration = Duration::from_millis(15); // retry delay
 const T_BCAST: Duration = Duration::from_millis(3000);
 const WATCHDOG: Duration = Duration::from_secs(10);
 const HEALTHY_CALLS: usize = 3;
+const DEFAULT_TIMEOUT: Duration = Duration::from_secs(20); // FleetOptions.default_timeout, unused by a correct fleet
+/// Cases whose oracle failure was confirmed. After this many the remaining cases are not run: the
+/// verdict is settled, and a defect that makes every case slow must not make the run endless.
+static CONFIRMED: AtomicU64 = AtomicU64::new(0);
+const ENOUGH_CONFIRMED: u64 = 40;
 const IDLE_WATCHDOG: Duration = Duration::from_secs(2);
 /// Watchdog expiries so far. When the implementation's socket behaviour systematically differs from
 /// what the scripts engineer (e.g. a client that no longer closes its socket after EOF), every case
@@ -476,6 +481,8 @@ struct NodeSt {
 struct NodeShared {
     port: u16,
     id: u64,
+    /// error code of the `apperr` replies of this node (4096 application, 7 Timeout, 8 ResourceExhausted, 6 MethodNotFound)
+    app_code: AtomicU64,
     _placeholder: OwnedFd,
     st: Mutex<NodeSt>,
     cv: Condvar,
@@ -629,7 +636,8 @@ fn handle_conn(sh: Arc<NodeShared>, mut s: TcpStream, id: u64) {
                 let _ = s.write_all(&reply_frame(&req, 0, 2, b"{\"ok\":true}"));
             }
             Beh::AppErr => {
-                let _ = s.write_all(&reply_frame(&req, 4096, 3, b"scripted application error"));
+                let code = sh.app_code.load(Ordering::SeqCst) as u32;
+                let _ = s.write_all(&reply_frame(&req, code, 3, b"scripted application error"));
             }
             Beh::Malformed => {
                 let _ = s.write_all(&[0xEEu8; 48]);
@@ -732,6 +740,7 @@ impl Node {
         let sh = Arc::new(NodeShared {
             port,
             id,
+            app_code: AtomicU64::new(4096),
             _placeholder: ph,
             st: Mutex::new(NodeSt {
                 script,
@@ -768,6 +777,12 @@ impl Node {
     }
     fn method(&self) -> String {
         String::from_utf8_lossy(&self.sh.st.lock().unwrap().token).into_owned()
+    }
+    /// Which error code the node's application errors carry: derived from the case's index token, so a
+    /// replay uses the same one. Whatever the code, an error *reply* ends the call.
+    fn set_app_code_for(&self, idx: &str) {
+        let codes = [4096u64, 7, 8, 6];
+        self.sh.app_code.store(codes[(fnv(idx.as_bytes()) % 4) as usize], Ordering::SeqCst);
     }
     fn set_token(&self, t: &str) {
         self.sh.st.lock().unwrap().token = t.as_bytes().to_vec();
@@ -869,7 +884,8 @@ struct Env {
 
 impl AnyFleet {
     fn new(kind: &str, configs: Vec<NodeConfig>, max: usize, delay: Duration) -> AnyFleet {
-        let opts = FleetOptions { default_timeout: T_NODE, retry_policy: RetryPolicy { max_attempts: max, delay } };
+        // the fleet-wide default differs from every node's own timeout: it must never be what a call waits for
+        let opts = FleetOptions { default_timeout: DEFAULT_TIMEOUT, retry_policy: RetryPolicy { max_attempts: max, delay } };
         match kind {
             "b" => AnyFleet::B(Fleet::with_options(configs, opts).expect("fleet options")),
             _ => AnyFleet::A(AsyncFleet::with_options(configs, opts).expect("fleet options")),
@@ -902,6 +918,42 @@ impl AnyFleet {
                 let r = env.rt.block_on(f.call_message("n", method)).expect("node exists");
                 class_of_result(&r.value, &r.error)
             }
+        }
+    }
+    /// `connect_all`: was "n" reported connected (Some(true)), failed (Some(false)) or neither (None)
+    fn connect_all(&self, env: &Env) -> Option<bool> {
+        let s = match self {
+            AnyFleet::B(f) => f.connect_all(),
+            AnyFleet::A(f) => env.rt.block_on(f.connect_all()),
+        };
+        if s.connected.iter().any(|x| x == "n") { Some(true) } else if s.failed.iter().any(|x| x == "n") { Some(false) } else { None }
+    }
+    fn disconnect_all(&self, env: &Env) {
+        match self {
+            AnyFleet::B(f) => drop(f.disconnect_all()),
+            AnyFleet::A(f) => drop(env.rt.block_on(f.disconnect_all())),
+        }
+    }
+    fn reconnect(&self, env: &Env) -> Option<bool> {
+        let s = match self {
+            AnyFleet::B(f) => f.reconnect_disconnected(),
+            AnyFleet::A(f) => env.rt.block_on(f.reconnect_disconnected()),
+        };
+        if s.reconnected.iter().any(|x| x == "n") { Some(true) } else if s.failed.iter().any(|x| x == "n") { Some(false) } else { None }
+    }
+    /// `health_check`: class of the verdict for "n" (`ok` = healthy)
+    fn health(&self, env: &Env, method: &str) -> String {
+        let mut m = match self {
+            AnyFleet::B(f) => f.health_check(method),
+            AnyFleet::A(f) => env.rt.block_on(f.health_check(method)),
+        };
+        match m.remove("n") {
+            None => "None".into(),
+            Some(h) => match (h.healthy, &h.error) {
+                (true, None) => "ok".into(),
+                (_, Some(e)) => class_of(e),
+                (false, None) => "None".into(),
+            },
         }
     }
     fn is_connected(&self, env: &Env, name: &str) -> bool {
@@ -950,6 +1002,7 @@ enum Verdict {
 
 /// The property's clauses evaluated on one call, from what the node saw and what the fleet returned.
 fn check_call(kind: &str, max: usize, c: &CallRec, what: &str, sniffer_dependent: bool) -> Verdict {
+    let health = what.contains("(health)");
     let k = kind_name(kind);
     let n = c.contacts.len();
     let show: Vec<String> = c
@@ -992,6 +1045,10 @@ fn check_call(kind: &str, max: usize, c: &CallRec, what: &str, sniffer_dependent
     // (1) bounded
     if n > max {
         return Verdict::Fail(format!("fleet.{k}.attempts.exceeds_max"), ctx);
+    }
+    // each attempt waits for the node's own timeout (80 ms), not for the fleet-wide default (20 s)
+    if !health && c.t1.saturating_duration_since(c.t0) > (T_NODE + DELAY) * max as u32 + Duration::from_secs(5) {
+        return Verdict::Fail(format!("fleet.{k}.timeout.not_the_nodes"), ctx);
     }
     // the node read a request only after the fleet call had returned: the client did not wait for the
     // node (it timed out on a starved node thread); what the node then did is not what the call saw
@@ -1106,6 +1163,7 @@ fn run_case(env: &Env, idx: &str, kind: &str, variant: &str, max: usize, seq: &[
             return out;
         }
     };
+    node.set_app_code_for(idx);
     let cfg = NodeConfig::new(node_host(), node.port()).unwrap().with_name("n").unwrap().with_timeout(T_NODE).unwrap();
     let fleet = AnyFleet::new(kind, vec![cfg], max, DELAY);
     let mut script_calls = vec![];
@@ -1222,12 +1280,204 @@ fn run_case(env: &Env, idx: &str, kind: &str, variant: &str, max: usize, seq: &[
     out
 }
 
+
+// ------------------------------------------------------------------------------------------
+// connection management and health check, mixed with calls
+// ------------------------------------------------------------------------------------------
+fn run_life(env: &Env, idx: &str, kind: &str, max: usize, seq: &[Beh], ops: &[String]) -> CaseOut {
+    let mut out = CaseOut::default();
+    let k = kind_name(kind);
+    if seq.contains(&Beh::Refused) && env.sniffer.is_none() {
+        out.skip = Some("no_sniffer".into());
+        return out;
+    }
+    let drops0 = env.sniffer.as_ref().map(|s| s.total_drops());
+    if let Some(s) = &env.sniffer {
+        if let Err(r) = s.barrier() {
+            out.skip = Some(r);
+            return out;
+        }
+    }
+    let node = match Node::new(seq.to_vec(), env.sniffer.clone()) {
+        Ok(n) => n,
+        Err(e) => {
+            out.skip = Some(format!("node_{:?}:{e}", e.kind()));
+            return out;
+        }
+    };
+    node.set_app_code_for(idx);
+    let cfg = NodeConfig::new(node_host(), node.port()).unwrap().with_name("n").unwrap().with_timeout(T_NODE).unwrap();
+    let fleet = AnyFleet::new(kind, vec![cfg], max, DELAY);
+    let sd = seq.contains(&Beh::Refused);
+    let mut words = vec![idx.to_string(), "o".to_string()];
+    let mut dead: Vec<String> = vec![];
+    let mut healthy_calls = vec![];
+    let mut recovered: Option<usize> = None;
+    let mut verdicts: Vec<Verdict> = vec![];
+    let r: Result<(), String> = (|| {
+        for (i, op) in ops.iter().enumerate() {
+            let what = format!("operation {} ({op})", i + 1);
+            match op.as_str() {
+                "call" => {
+                    let c = one_call(env, &fleet, &node, "json")?;
+                    verdicts.push(check_call(kind, max, &c, &what, sd));
+                    if c.contacts.is_empty() && c.res.starts_with("Io(") {
+                        dead.push(c.res[3..c.res.len() - 1].to_string());
+                    }
+                    words.push(format!("call:{}", show_call(&c)));
+                }
+                "health" => {
+                    let n0 = node.log_len();
+                    let pre_conn = fleet.is_connected(env, "n");
+                    let conn_mark = node.sh.st.lock().unwrap().next_conn;
+                    let t0 = Instant::now();
+                    let res = fleet.health(env, &node.method());
+                    let t1 = Instant::now();
+                    node.settle()?;
+                    if let Some(t) = node.trouble() {
+                        return Err(t);
+                    }
+                    let c = CallRec { contacts: node.log_from(n0), res, conn: fleet.is_connected(env, "n"), t0, t1, pre_conn, conn_mark };
+                    // a health check is one attempt: the clauses of a call with max_attempts = 1 …
+                    verdicts.push(check_call(kind, 1, &c, &what, sd));
+                    // … and an unhealthy verdict must not leave a client (least of all a dead one) behind
+                    if c.res != "ok" && c.conn {
+                        verdicts.push(Verdict::Fail(
+                            format!("fleet.{k}.health.unhealthy_keeps_client"),
+                            format!("{what}: verdict {} but is_connected stays true", c.res),
+                        ));
+                    }
+                    if c.contacts.is_empty() && c.res.starts_with("Io(") {
+                        dead.push(c.res[3..c.res.len() - 1].to_string());
+                    }
+                    words.push(format!("health:{}", show_call(&c)));
+                }
+                "conn" | "reconn" => {
+                    let was = fleet.is_connected(env, "n");
+                    let n0 = node.log_len();
+                    let r = if op == "conn" { fleet.connect_all(env) } else { fleet.reconnect(env) };
+                    node.settle()?;
+                    if let Some(t) = node.trouble() {
+                        return Err(t);
+                    }
+                    let conn = fleet.is_connected(env, "n");
+                    // the fleet says the connect failed: the node's log must show the counted refusal
+                    // (and only a refusal can be in the log of a bare connect)
+                    let seen: Vec<Contact> = node.log_from(n0);
+                    let refusals = seen.iter().filter(|x| x.beh == Beh::Refused && x.via == Via::Connect).count();
+                    if (r == Some(false)) != (refusals == 1) || seen.len() != refusals {
+                        return Err("refusal_unseen".into());
+                    }
+                    // the summary and the slot must agree; an occupied slot is not an attempt for reconnect
+                    let consistent = match (op.as_str(), r) {
+                        ("conn", Some(b)) => b == conn,
+                        ("conn", None) => false,
+                        (_, None) => was && conn,
+                        (_, Some(b)) => !was && b == conn,
+                    };
+                    if !consistent {
+                        verdicts.push(Verdict::Fail(
+                            format!("fleet.{k}.{}.summary_mismatch", if op == "conn" { "connect_all" } else { "reconnect" }),
+                            format!("{what}: summary {:?}, is_connected before {was} after {conn}", r),
+                        ));
+                    }
+                    let txt = match r {
+                        Some(true) => "ok",
+                        Some(false) => "failed",
+                        None => "-",
+                    };
+                    words.push(format!("{op}:{txt}:{}", conn as u8));
+                }
+                "disc" => {
+                    fleet.disconnect_all(env);
+                    node.settle()?;
+                    let conn = fleet.is_connected(env, "n");
+                    if conn {
+                        verdicts.push(Verdict::Fail(format!("fleet.{k}.disconnect_all.still_connected"), what.clone()));
+                    }
+                    words.push(format!("disc:{}", conn as u8));
+                }
+                _ => return Err("bad_life_op".into()),
+            }
+        }
+        node.set_healthy();
+        for i in 0..HEALTHY_CALLS {
+            let c = one_call(env, &fleet, &node, "json")?;
+            let ok = c.res == "ok";
+            healthy_calls.push(c);
+            if ok {
+                recovered = Some(i + 1);
+                break;
+            }
+        }
+        Ok(())
+    })();
+    if let Err(reason) = r {
+        out.skip = Some(reason);
+        return out;
+    }
+    if let (Some(s), Some(d0)) = (&env.sniffer, drops0) {
+        if s.total_drops() != d0 {
+            out.skip = Some("sniffer_drops".into());
+            return out;
+        }
+    }
+    for (i, c) in healthy_calls.iter().enumerate() {
+        verdicts.push(check_call(kind, max, c, &format!("healthy call {}", i + 1), sd));
+        if c.contacts.is_empty() && c.res.starts_with("Io(") {
+            dead.push(c.res[3..c.res.len() - 1].to_string());
+        }
+    }
+    for v in verdicts {
+        match v {
+            Verdict::Fine => {}
+            Verdict::Skip(r) => {
+                out.skip = Some(r);
+                return out;
+            }
+            Verdict::Fail(sig, d) => out.fails.push((sig, d)),
+        }
+    }
+    let allowed = if max >= 2 { 1 } else { 2 };
+    if recovered.map_or(true, |n| n > allowed) {
+        let cls = healthy_calls[0].res.replace("Io(", "").replace(')', "");
+        out.fails.push((
+            format!("fleet.{k}.recover.wedged.{cls}"),
+            format!(
+                "after operations [{}] against [{}] the node was healthy but {} call(s) with max_attempts={max} did not recover: {}",
+                ops.join(","),
+                show_seq(seq),
+                healthy_calls.len(),
+                healthy_calls.iter().map(show_call).collect::<Vec<_>>().join(" ")
+            ),
+        ));
+    }
+    words.push("|".into());
+    words.push("h".into());
+    words.extend(healthy_calls.iter().map(show_call));
+    words.push("|".into());
+    words.push("rec".into());
+    words.push(recovered.map_or("never".into(), |n| n.to_string()));
+    out.obs = Some(words.join(" "));
+    if !dead.is_empty() {
+        out.op_suffix = Some(format!("dead={}", dead.join(",")));
+    }
+    out.nontrivial = true;
+    for op in ops {
+        out.counters.push(format!("life.{op}"));
+    }
+    out.counters.push(format!("life.{k}.ops{}.len{}", ops.len(), seq.len()));
+    out
+}
+
 // ------------------------------------------------------------------------------------------
 // broadcast cases
 // ------------------------------------------------------------------------------------------
 struct BcNode {
     name: String,
     tags: Vec<String>,
+    /// empty = healthy; otherwise one of: all `refused`, all `silent`, or replies (`apperr`/`success`)
+    script: Vec<Beh>,
     down: bool,
 }
 
@@ -1240,15 +1490,19 @@ fn parse_bc_nodes(s: &str) -> Option<Vec<BcNode>> {
         }
         let tags = f[1].split('+').filter(|x| !x.is_empty()).map(|x| x.to_string()).collect();
         let bs = parse_seq(f[2])?;
-        if !bs.iter().all(|b| *b == Beh::Refused) {
+        // scripts whose every element yields the same class whatever the timing: the node never has
+        // to answer within the short timeout that the silent nodes get
+        let uniform = |b: Beh| bs.iter().all(|x| *x == b);
+        if !(bs.is_empty() || uniform(Beh::Refused) || uniform(Beh::Silent) || bs.iter().all(|b| matches!(b, Beh::AppErr | Beh::Success))) {
             return None;
         }
-        v.push(BcNode { name: f[0].to_string(), tags, down: !bs.is_empty() });
+        let down = !bs.is_empty() && uniform(Beh::Refused);
+        v.push(BcNode { name: f[0].to_string(), tags, script: bs, down });
     }
     Some(v)
 }
 
-fn run_bc(env: &Env, idx: &str, kind: &str, max: usize, nodes: &[BcNode], req: &[String]) -> CaseOut {
+fn run_bc(env: &Env, idx: &str, kind: &str, max: usize, nodes: &[BcNode], req: &[String], map_reduce: bool) -> CaseOut {
     let mut out = CaseOut::default();
     if nodes.iter().any(|n| n.down) && env.sniffer.is_none() {
         out.skip = Some("no_sniffer".into());
@@ -1263,7 +1517,7 @@ fn run_bc(env: &Env, idx: &str, kind: &str, max: usize, nodes: &[BcNode], req: &
     }
     let mut live = vec![];
     for n in nodes {
-        let script = if n.down { vec![Beh::Refused; max] } else { vec![] };
+        let script = n.script.clone();
         match Node::new(script, env.sniffer.clone()) {
             Ok(x) => live.push(x),
             Err(e) => {
@@ -1276,7 +1530,9 @@ fn run_bc(env: &Env, idx: &str, kind: &str, max: usize, nodes: &[BcNode], req: &
         .iter()
         .zip(&live)
         .map(|(n, x)| {
-            NodeConfig::new(node_host(), x.port()).unwrap().with_name(n.name.clone()).unwrap().with_tags(n.tags.clone()).with_timeout(T_BCAST).unwrap()
+            // the per-node timeout: short for a node that never answers, generous for the others
+            let t = if n.script.contains(&Beh::Silent) { T_NODE } else { T_BCAST };
+            NodeConfig::new(node_host(), x.port()).unwrap().with_name(n.name.clone()).unwrap().with_tags(n.tags.clone()).with_timeout(t).unwrap()
         })
         .collect();
     let fleet = AnyFleet::new(kind, configs, max, Duration::from_millis(10));
@@ -1286,14 +1542,24 @@ fn run_bc(env: &Env, idx: &str, kind: &str, max: usize, nodes: &[BcNode], req: &
         x.set_token(&method);
     }
     let method = method.as_str();
+    let cls = |r: repe::RemoteResult<serde_json::Value>| (r.node.clone(), class_of_result(&r.value, &r.error));
     let (mut results, mut filtered): (Vec<(String, String)>, Vec<String>) = match &fleet {
         AnyFleet::B(f) => (
-            f.broadcast_json(method, Some(&params), req).into_iter().map(|(k, r)| (k, class_of_result(&r.value, &r.error))).collect(),
+            if map_reduce {
+                // `map_reduce_json` = the same broadcast, reduced: the reducer must see one result per addressed node
+                f.map_reduce_json(method, Some(&params), req, |v| v.into_iter().map(cls).collect())
+            } else {
+                f.broadcast_json(method, Some(&params), req).into_iter().map(|(k, r)| (k, class_of_result(&r.value, &r.error))).collect()
+            },
             f.filter_nodes(req).into_iter().map(|n| n.name).collect(),
         ),
         AnyFleet::A(f) => env.rt.block_on(async {
             (
-                f.broadcast_json(method, Some(&params), req).await.into_iter().map(|(k, r)| (k, class_of_result(&r.value, &r.error))).collect(),
+                if map_reduce {
+                    f.map_reduce_json(method, Some(&params), req, |v| v.into_iter().map(cls).collect()).await
+                } else {
+                    f.broadcast_json(method, Some(&params), req).await.into_iter().map(|(k, r)| (k, class_of_result(&r.value, &r.error))).collect()
+                },
                 f.filter_nodes(req).await.into_iter().map(|n| n.name).collect(),
             )
         }),
@@ -1354,7 +1620,7 @@ fn run_bc(env: &Env, idx: &str, kind: &str, max: usize, nodes: &[BcNode], req: &
         dash(addressed.clone()),
         dash(results.iter().map(|(k, v)| format!("{k}={v}")).collect())
     ));
-    out.nontrivial = !expect.is_empty() && expect.len() < nodes.len() || nodes.iter().any(|n| n.down);
+    out.nontrivial = !expect.is_empty() && expect.len() < nodes.len() || nodes.iter().any(|n| !n.script.is_empty());
     out.counters.push(format!("bc.{k}.nodes{}.targets{}", nodes.len(), expect.len()));
     out
 }
@@ -1374,10 +1640,18 @@ fn exec(env: &Env, line: &str) -> CaseOut {
             }
             run_case(env, idx, kind, variant, max, &seq)
         }
-        ["bc", idx, kind, max, nodes, req] if ["b", "a"].contains(kind) => {
+        [op @ ("bc" | "mr"), idx, kind, max, nodes, req] if ["b", "a"].contains(kind) => {
             let (Ok(max), Some(nodes)) = (max.parse::<usize>(), parse_bc_nodes(nodes)) else { return bad() };
             let req: Vec<String> = if *req == "-" { vec![] } else { req.split(',').map(|x| x.to_string()).collect() };
-            run_bc(env, idx, kind, max, &nodes, &req)
+            run_bc(env, idx, kind, max, &nodes, &req, *op == "mr")
+        }
+        ["life", idx, kind, max, seq, ops, ..] if w.len() <= 7 && ["b", "a"].contains(kind) => {
+            let (Ok(max), Some(seq)) = (max.parse::<usize>(), parse_seq(seq)) else { return bad() };
+            let ops: Vec<String> = ops.split(',').filter(|x| !x.is_empty()).map(|x| x.to_string()).collect();
+            if max == 0 || ops.is_empty() || !ops.iter().all(|o| ["conn", "disc", "reconn", "health", "call"].contains(&o.as_str())) {
+                return bad();
+            }
+            run_life(env, idx, kind, max, &seq, &ops)
         }
         _ => bad(),
     }
@@ -1428,6 +1702,32 @@ fn gen_cases(rng: &mut Rng, thorough: bool) -> Vec<String> {
             push(&mut ops, kind, max, &seq);
         }
     }
+    // connection management and health check mixed with calls: every operation sequence up to length 3
+    // over {connect_all, disconnect_all, reconnect_disconnected, health_check, call}; node scripts up to
+    // length 2 without `silent` (health_check waits 5 s for a reply): quick 8 sampled scripts per
+    // operation sequence, thorough all 43
+    {
+        let life_ops = ["conn", "disc", "reconn", "health", "call"];
+        let mut op_seqs: Vec<Vec<&str>> = vec![];
+        for len in 1..=3usize {
+            let mut cur: Vec<Vec<&str>> = vec![vec![]];
+            for _ in 0..len {
+                cur = cur.into_iter().flat_map(|s| life_ops.iter().map(move |o| { let mut t = s.clone(); t.push(*o); t })).collect();
+            }
+            op_seqs.extend(cur);
+        }
+        let scripts: Vec<Vec<Beh>> = (0..=2).flat_map(all_seqs).filter(|s| !s.contains(&Beh::Silent)).collect();
+        let mut l = 0usize;
+        for os in &op_seqs {
+            let chosen: Vec<&Vec<Beh>> = if thorough { scripts.iter().collect() } else { (0..8).map(|_| rng.pick(&scripts)).collect() };
+            for sc in chosen {
+                l += 1;
+                let kind = if l % 2 == 0 { "b" } else { "a" };
+                let max = 1 + l % 3;
+                ops.push(format!("life l{l} {kind} {max} {} {}", show_seq(sc), os.join(",")));
+            }
+        }
+    }
     // broadcasts: every assignment of tag subsets to up to N nodes, every requested subset
     let mut m = 0usize;
     let plans: Vec<(usize, Vec<&str>)> =
@@ -1451,16 +1751,31 @@ fn gen_cases(rng: &mut Rng, thorough: bool) -> Vec<String> {
                     m += 1;
                     let kind = if m % 2 == 0 { "b" } else { "a" };
                     let max = 1 + m % 2;
-                    let down = if m % 7 == 0 { Some(m % nn) } else { None };
+                    // every 7th broadcast has a refusing node, every 5th a node that is silent on every
+                    // attempt (it is addressed and must still get its one result entry), every 11th a
+                    // node that answers with an application error
+                    let special: Option<(usize, String)> = if m % 7 == 0 {
+                        Some((m % nn, vec!["refused"; max].join(",")))
+                    } else if m % 5 == 0 {
+                        Some((m % nn, vec!["silent"; max].join(",")))
+                    } else if m % 11 == 0 {
+                        Some((m % nn, "apperr".to_string()))
+                    } else {
+                        None
+                    };
                     let nodes: Vec<String> = tagsets
                         .iter()
                         .enumerate()
                         .map(|(i, t)| {
-                            let bs = if down == Some(i) { vec!["refused"; max].join(",") } else { "-".to_string() };
+                            let bs = match &special {
+                                Some((j, b)) if *j == i => b.clone(),
+                                _ => "-".to_string(),
+                            };
                             format!("n{i}={t}={bs}")
                         })
                         .collect();
-                    ops.push(format!("bc b{m} {kind} {max} {} {req}", nodes.join(";")));
+                    let op = if m % 3 == 0 { "mr" } else { "bc" };
+                    ops.push(format!("{op} b{m} {kind} {max} {} {req}", nodes.join(";")));
                 }
             }
         }
@@ -1480,7 +1795,7 @@ fn main() {
     out.extra.insert("sniffer".into(), serde_json::json!(env.sniffer.is_some()));
     out.extra.insert("node_timeout_ms".into(), serde_json::json!(T_NODE.as_millis() as u64));
     out.extra.insert("retry_delay_ms".into(), serde_json::json!(DELAY.as_millis() as u64));
-    out.rule = "case = fresh Fleet/AsyncFleet + one scripted node: calls until the script is consumed (at most 2*len+1), then a healthy phase of up to 3 calls; all behaviour sequences over the 7-letter alphabet up to length max+2 (quick: max 1 up to length 3, max 2 up to length 4, max 3 up to length 3 + 300 sampled sequences of length 4-5; thorough: max 1..3 up to length max+2, exhaustive), both fleets, call variants json/jsonnp/msg in rotation (thorough: all three for max 1,2); bc = every assignment of tag subsets to up to 3 (thorough 4) nodes x every requested subset (+ one duplicated tag), every 7th with a refusing node. Distinct by op line; non-trivial = a call retried, hit a dead cached client, or returned an error / a broadcast that selects a proper non-empty subset or has a refusing node".into();
+    out.rule = "case = fresh Fleet/AsyncFleet + one scripted node: calls until the script is consumed (at most 2*len+1), then a healthy phase of up to 3 calls; all behaviour sequences over the 7-letter alphabet up to length max+2 (quick: max 1 up to length 3, max 2 up to length 4, max 3 up to length 3 + 300 sampled sequences of length 4-5; thorough: max 1..3 up to length max+2, exhaustive), both fleets, call variants json/jsonnp/msg in rotation (thorough: all three for max 1,2); life = every sequence (length 1-3) of connect_all / disconnect_all / reconnect_disconnected / health_check / call against node scripts of length <= 2 without silent (quick: 8 sampled scripts each; thorough: all 43), then the healthy phase; bc / mr (map_reduce_json) = every assignment of tag subsets to up to 3 (thorough 4) nodes x every requested subset (+ one duplicated tag), every 7th with a refusing node, every 5th with a node that is silent on every attempt, every 11th with a node answering an application error. Distinct by op line; non-trivial = a call retried, hit a dead cached client, or returned an error / a broadcast that selects a proper non-empty subset or has a refusing node".into();
     let mut ops: Vec<String> = match args.replay_ops() {
         Some(ops) => ops,
         None => gen_cases(&mut rng, args.thorough()),
@@ -1509,6 +1824,10 @@ fn main() {
                     Err(msg) => CaseOut { skip: Some(format!("harness_panic:{msg}")), ..Default::default() },
                 }
             };
+            if CONFIRMED.load(Ordering::SeqCst) >= ENOUGH_CONFIRMED {
+                results.lock().unwrap()[i] = Some(CaseOut { skip: Some("not_run_after_failures".into()), ..Default::default() });
+                continue;
+            }
             let mut r = run(&ops[i]);
             for _ in 0..2 {
                 if let Some(reason) = &r.skip {
@@ -1529,10 +1848,16 @@ fn main() {
                 for _ in 0..2 {
                     let again = run(&ops[i]);
                     if again.skip.is_some() || sigs(&again) != first || again.obs != r.obs {
+                        if std::env::var("FLEET_TEST_VERBOSE").is_ok() {
+                            eprintln!("unconfirmed: {} :: {:?}", ops[i], r.fails);
+                        }
                         skipped_tries.lock().unwrap().push("unconfirmed_failure".into());
                         r = CaseOut { skip: Some("unconfirmed_failure".into()), ..Default::default() };
                         break;
                     }
+                }
+                if r.skip.is_none() {
+                    CONFIRMED.fetch_add(1, Ordering::SeqCst);
                 }
             }
             results.lock().unwrap()[i] = Some(r);
